@@ -38,7 +38,7 @@ def _ground(a):
 class FirstOrderLift:
     """context: proxies + lifting wrapper installed on fords.simulators.simulate_frame"""
 
-    def __init__(self, ir, lift_rows, values=None, lift_where=None, shift=None):
+    def __init__(self, ir, lift_rows, values=None, lift_where=None, shift=None, override=None):
         """
         lift_rows: names of dataslate rows whose non-NaN cells become symbols
         values:    {symbol name: shadow value}
@@ -51,6 +51,7 @@ class FirstOrderLift:
         self.values = values
         self.lift_where = lift_where
         self.shift = shift or {}
+        self.override = override or {}     # {(row name, offset k): SReal or number} placed instead of a fresh symbol
         self.proxy = npproxy.Proxy()
         self.caps = []
         self._ctx = None
@@ -76,6 +77,9 @@ class FirstOrderLift:
                     for j in range(obj.shape[1]):
                         if isinstance(obj[i, j], S.SReal):
                             obj[i, j] = obj[i, j] + c
+            for (nm, k), term in outer.override.items():
+                if nm in names and 0 <= b0 + k < obj.shape[1]:
+                    obj[names.index(nm), b0 + k] = term
             var.data = obj
             if kw.get("input_data_array") is not None:
                 ida = kw["input_data_array"]
@@ -86,6 +90,9 @@ class FirstOrderLift:
                         for j in range(iobj.shape[1]):
                             if isinstance(iobj[i, j], S.SReal):
                                 iobj[i, j] = iobj[i, j] + c
+                for (nm, k), term in outer.override.items():
+                    if nm in names and 0 <= b0 + k < iobj.shape[1]:
+                        iobj[names.index(nm), b0 + k] = term
                 kw["input_data_array"] = iobj
                 for k, v in isyms.items():
                     syms.setdefault(k, v)
